@@ -1,6 +1,7 @@
 """Witness builders: counter-model -> concrete scenario -> call of the real,
 unmodified psutil code.  Nothing here signals or modifies a real process:
 effectful primitives are always intercepted."""
+import errno
 import collections
 import fractions
 import os
@@ -549,13 +550,14 @@ def c14_open_files(model, meta):
                 tgt = f"rel/path{fd}"
             elif kind == "dir":
                 tgt = f"{d}/files"
-            elif kind in ("nofdinfo", "esrch_fdinfo", "esrch_readlink", "enoent_readlink"):
+            elif kind in ("nofdinfo", "esrch_fdinfo", "esrch_readlink", "enoent_readlink", "enoent_read_fdinfo",
+                          "esrch_read_fdinfo"):
                 # descriptors that close between the directory listing and their inspection (the kernel answers
                 # ENOENT or ESRCH, at readlink() or when the fdinfo file is opened)
                 tgt = f"{d}/files/n{fd}"
                 open(tgt, "w").close()
                 if kind != "nofdinfo":
-                    closing[f"{d}/{pid}/fdinfo/{fd}" if kind == "esrch_fdinfo" else f"{d}/{pid}/fd/{fd}"] = kind
+                    closing[f"{d}/{pid}/fdinfo/{fd}" if kind.endswith("_fdinfo") else f"{d}/{pid}/fd/{fd}"] = kind
             os.symlink(tgt, f"{d}/{pid}/fd/{fd}")
             if kind != "nofdinfo":
                 with open(f"{d}/{pid}/fdinfo/{fd}", "w") as f:
@@ -567,9 +569,37 @@ def c14_open_files(model, meta):
         import builtins
         real_open, real_readlink = builtins.open, os.readlink
 
+        class _ClosedUnderfoot:
+            """the fdinfo file was opened, then the descriptor closed: the kernel fails the read()"""
+
+            def __init__(self, f, exc):
+                self.f, self.exc = f, exc
+
+            def __enter__(self):
+                return self
+
+            def __exit__(self, *a):
+                self.f.close()
+
+            def close(self):
+                self.f.close()
+
+            def read(self, *a):
+                raise self.exc
+
+            readline = readlines = read
+
+            def __iter__(self):
+                raise self.exc
+
         def f_open(file, *a, **k):
-            if isinstance(file, str) and closing.get(file) == "esrch_fdinfo":
+            how = closing.get(file) if isinstance(file, str) else None
+            if how == "esrch_fdinfo":
                 raise ProcessLookupError(3, "No such process", file)
+            if how == "enoent_read_fdinfo":
+                return _ClosedUnderfoot(real_open(file, *a, **k), FileNotFoundError(2, "No such file or directory"))
+            if how == "esrch_read_fdinfo":
+                return _ClosedUnderfoot(real_open(file, *a, **k), ProcessLookupError(3, "No such process"))
             return real_open(file, *a, **k)
 
         def f_readlink(path, *a, **k):
@@ -605,7 +635,7 @@ def c14_open_files_search(meta, seed, budget):
     import random
     rng = random.Random(seed)
     kinds = ["file", "deleted_gone", "deleted_exists", "socket", "pipe", "device", "relative", "dir", "nofdinfo",
-             "esrch_fdinfo", "esrch_readlink", "enoent_readlink"]
+             "esrch_fdinfo", "esrch_readlink", "enoent_readlink", "enoent_read_fdinfo", "esrch_read_fdinfo"]
     extras = [0, os.O_APPEND, os.O_CREAT | os.O_TRUNC, os.O_CLOEXEC, os.O_APPEND | os.O_CLOEXEC | 0o100000]
     n = 0
     for acc in range(4):
@@ -1153,15 +1183,52 @@ def c05_tree(model, meta):
                 shutil.rmtree(os.path.join(psutil.PROCFS_PATH, str(v)), ignore_errors=True)
             return m
 
+        # a process exiting *while the snapshot is taken*: its stat file cannot be opened any more (ENOENT) or was opened
+        # and cannot be read any more (ESRCH); either way it is simply not part of the snapshot
+        in_map = {int(k): v for k, v in model.get("vanish_in_map", {}).items() if int(k) != me and int(k) in procs}
+        real_ob = _pslinux.open_binary
+
+        class _DeadFile:
+            def __init__(self, f):
+                self.f = f
+
+            def __enter__(self):
+                return self
+
+            def __exit__(self, *a):
+                self.f.close()
+
+            def read(self, *a):
+                raise ProcessLookupError(errno.ESRCH, "No such process")
+
+            readline = read
+
+        def faulty_open(fname, *a, **kw):
+            for v, how in in_map.items():
+                if fname.endswith(f"/{v}/stat"):
+                    if how == "open":
+                        raise FileNotFoundError(errno.ENOENT, "No such file or directory", fname)
+                    return _DeadFile(real_ob(fname, *a, **kw))
+            return real_ob(fname, *a, **kw)
+
+        def faulty_map():
+            with mock.patch.object(_pslinux, "open_binary", faulty_open):
+                return real_map()
+
         for rec in ((False, True) if not vanish else (True,)):
             signal.alarm(5)
             try:
                 if vanish:
                     with mock.patch.object(psutil, "_ppid_map", map_then_vanish):
                         got = [c.pid for c in p.children(recursive=rec)]
+                elif in_map:
+                    with mock.patch.object(psutil, "_ppid_map", faulty_map):
+                        got = [c.pid for c in p.children(recursive=rec)]
+                    for v in in_map:     # it is gone for good: no later access finds it either
+                        shutil.rmtree(os.path.join(psutil.PROCFS_PATH, str(v)), ignore_errors=True)
                 else:
                     got = [c.pid for c in p.children(recursive=rec)]
-                want = ref_children(allp, me, rec, vanished=vanish)
+                want = ref_children(allp, me, rec, vanished=list(vanish) + list(in_map))
                 if sorted(got) != want or len(got) != len(set(got)):
                     problems.append(f"children(recursive={rec}) == {got}, expected {want}")
             except Exception as e:  # noqa: BLE001
@@ -1170,7 +1237,7 @@ def c05_tree(model, meta):
                 signal.alarm(0)
         signal.alarm(5)
         try:
-            if vanish:
+            if vanish or in_map:
                 raise StopIteration
             par = p.parent()
             pp = allp[me][0]
@@ -1206,6 +1273,10 @@ def c05_tree_search(meta, seed, budget):
             if n % 3 == 0:
                 yield {"procs": {str(p): [pp[i], starts[i]] for i, p in enumerate(pids)}, "self": 10,
                        "vanish": [rng.choice([11, 12, 13])]}
+                n += 1
+            if n % 4 == 0:
+                yield {"procs": {str(p): [pp[i], starts[i]] for i, p in enumerate(pids)}, "self": 10,
+                       "vanish_in_map": {str(rng.choice([11, 12, 13])): rng.choice(["open", "read"])}}
                 n += 1
             if n >= budget:
                 return
